@@ -203,6 +203,18 @@ class World:
         self.forms = []
         self.prev_live = set()
 
+    def refused_writes(self):
+        """a step with no counterpart in the specification (stuttering): a write that is refused - a position the vector does
+        not have - on everything the program holds.  A refusal changes nothing, so the history goes on as specified."""
+        targets = list(self.vec.values()) + [c for t in self.tab.values() for c in t.cols()]
+        for v in targets:
+            try:
+                v[len(v) + 5] = (list(v)[0] if len(v) else 0)
+            except Exception:      # noqa: BLE001
+                pass
+        if "refused writes in between" not in self.forms:
+            self.forms.append("refused writes in between")
+
     # -- object lookup -------------------------------------------------------------
     def obj(self, o):
         if o in self.vec:
@@ -242,6 +254,8 @@ class World:
         self.prev_live = before
         after = set(a["lv"])
         new = sorted(after - before)
+        if self.variant % 2 == 1:
+            self.refused_writes()
         res = self._do(a, new)
         # liveness bookkeeping: drop our references to whatever the spec says died
         for o in list(self.vec):
@@ -343,6 +357,10 @@ class World:
             t, i, d = a["x"], a["y"] - 1, a["z"]
             tab = self.tab[t]
             acc = self.accessor(t, i)
+            nm_i = self.names(t)[i]
+            if nm_i is not None and "__" not in acc and self.pick(2) == 1:
+                acc = f"{nm_i}__{i}"         # the indexed spelling names the same column (also where the name is not repeated)
+            self.forms.append("t.%s = v" % acc)
             donor = self.obj(d)
             try:
                 setattr(tab, acc, donor)
